@@ -84,6 +84,45 @@ REGISTRY['C05'] = numeric('C05', 'c05_jacobians.cpp', nq=3000, nt=150000, shard=
                                + RULE_STRATA, assumptions=ASSUME_FP + ['oracle Jacobian = 4th-order central differences of the definition on the long-double model, step min(1e-4, 0.01*(pi-theta))',
                                                                        'float instantiations are held to 1e-2 only (the property states its bound for double)'])
 
+REGISTRY['C04'] = numeric('C04', 'c04_plusminus.cpp', nq=15000, nt=600000,
+                          rule='plus/minus/between definitions vs model and 45 alias forms (members, operators, tangent-side forms, functions.h facade, Map operands) compared bit-for-bit '
+                               'with the canonical member; ' + RULE_STRATA, assumptions=ASSUME_FP)
+
+ALL_BUNDLES = ['BT0', 'BT1', 'BT2', 'BT3', 'BT4', 'BT5', 'BT6', 'BS0', 'BS1', 'BS2', 'BS3', 'BS4', 'BS5', 'BS6', 'BR0', 'BR1', 'BR2', 'BL0', 'BA', 'BC', 'BD']
+ALL_RN = ['R1', 'R2', 'R3', 'R4', 'R5', 'R6', 'R7', 'R8', 'R9']
+C07_GROUPS = ['SO2', 'SE2', 'SO3', 'SE3', 'SE23', 'SGAL3'] + ALL_RN + ALL_BUNDLES
+REGISTRY['C07'] = numeric('C07', 'c07_algebra.cpp', nq=4000, nt=200000, groups_q=C07_GROUPS, groups_t=C07_GROUPS, float_groups=CORE,
+                          rule='every generator index 0<=i<DoF of every group / Rn n=1..9 / 21 bundle layouts is enumerated (exhaustive) and compared entry-wise with the documented table, 7 out-of-range '
+                               'indices must raise invalid_argument; hat/vee/bracket/inner identities on random tangent triples (every fifth triple small integers, where every identity must hold exactly); '
+                               + RULE_STRATA, assumptions=ASSUME_FP)
+
+def c17_spec():
+    groups = ['SE2', 'SO3', 'SE3', 'SGAL3', 'R3', 'BT1']
+    def bins(tier):
+        return [Bin('c17_decasteljau.cpp', 'asan', ['MG=' + g, 'MS=double']) for g in groups] + [Bin('c17_decasteljau.cpp', 'asan', ['MG=SE2', 'MS=float'])]
+    def run(p, tier, seed, t0):
+        bs = bins(tier)
+        ok, dt = build_all(bs)
+        fail = None
+        for b in bs:
+            if b.error: fail = (fail or '') + ' monitor %s does not build: %s' % (b.name, b.error.strip().split('\n')[0][:200])
+        par = dict(Nmax=10, kmax=2, ntraj=1, nshard=2) if tier == 'quick' else dict(Nmax=16, kmax=4, ntraj=3, nshard=8)
+        jobs = []
+        for b in bs:
+            if not b.path: continue
+            for sh in range(par['nshard']):
+                jobs.append({'bin': b, 'n': 0, 'seed': seed, 'tag': '/'.join(d.split('=')[1] for d in b.defs[:2]),
+                             'args': ['--arg', 'Nmax=%d' % par['Nmax'], '--arg', 'kmax=%d' % par['kmax'], '--arg', 'ntraj=%d' % par['ntraj'], '--arg', 'shard=%d/%d' % (sh, par['nshard'])]})
+        fold, f2 = run_sharded(p, tier, seed, jobs, 1800 if tier == 'quick' else 14400)
+        if f2: fail = (fail or '') + f2
+        spec = {'level': 'exploration', 'rule': 'every (N, degree, k, closed) with 3<=N<=%(Nmax)d, 2<=degree<=N, 1<=k<=%(kmax)d, closed in {0,1} is enumerated (exhaustive over that box) x %(ntraj)d trajectories per '
+                'configuration (smooth / identical points / steps of 1..2.6 rad / steps of 1e-9), plus 28 inputs that must raise (N<3, degree>N, k=0); each configuration runs in its own forked child under '
+                'ASan+UBSan+_GLIBCXX_ASSERTIONS with a 30 s watchdog; a cell is one configuration; every returned point is compared with a reference De Casteljau evaluated on the long-double model' % par,
+                'assumptions': ASSUME_FP + ['a child that exceeds 30 s twice is reported as non-termination (a correct run of the largest configuration takes < 0.5 s)']}
+        return finish(p, tier, seed, fold, spec, t0, harness_fail=fail, extra_cov={'exhaustive': True, 'box': par, 'groups': [b.name for b in bs]})
+    return {'bins': bins, 'run': run}
+REGISTRY['C17'] = c17_spec()
+
 # ------------------------------------------------------------------------------------------------
 # MANIFEST metadata
 # ------------------------------------------------------------------------------------------------
